@@ -31,6 +31,10 @@ pub fn components() -> Vec<String> {
     v.push("  .--.\n ( ab )-->\n  `--'".into());
     // quoted text with a zero-width character (blanking width)
     v.push("\"e\u{301}tat\" x\n+--+\n|  |\n+--+".into());
+    v.push("- - -".into());
+    v.push("- - - -\n  |".into());
+    v.push("-->".into());
+    v.push("Hello 中".into());
     v.push("()()".into());
     v.push(" ()()".into());
     v.push("()\n()".into());
